@@ -392,7 +392,13 @@ class Ref:
                 if ed == 'end_expr':
                     raise Unsupported('append end')
                 v = self.math(e)
-                self.append_byte(name, C.convert(v, C.U8).v)
+                try:
+                    self.append_byte(name, C.convert(v, C.U8).v)
+                except OutOfSpace:
+                    # a computed character that does not fit: whether the handler then sees the byte consumed just before or the next one depends on
+                    # which of the two bytes the action is scheduled with, which the language leaves open; such runs are outside the comparison
+                    self.ubs.append(z3.BoolVal(True))
+                    raise
                 return
             if hasattr(o, 'cap'):
                 if o.kind == 'raw_type':
